@@ -8,6 +8,7 @@ import re
 from fractions import Fraction
 from .core import RuleResult
 from .facts import fn_key, fn_loc, fn_file, walk, strip, peel_refs, pat_bindings, Render
+from .c17 import for_loops, tuple_positions
 
 LEVEL = ("Static analysis of linfa's metrics. Decided: (delegate) every multi-target regression metric applies, column by "
          "column over both operands, the single-target metric of the same name; (degree) in the single-target regression "
@@ -433,10 +434,24 @@ def rule_count(ctx):
             res.undecided("%s : matrix-shape" % key, "allocation of the matrix not found (fail closed)", fn_loc(fn))
         else:
             es = [r.e(e) for e in peel_refs(z["args"][0])["es"]]
-            if len(es) == 2 and es[0] == es[1] and "len()" in es[0]:
-                res.ok()
-            else:
+            inits_ = {}
+            for y in walk(fn["body"]):
+                if y.get("k") == "LetStmt" and y.get("init") is not None and y["pat"].get("k") == "Bind":
+                    inits_[y["pat"]["local"]] = y["init"]
+            rs_ = []
+            for e in peel_refs(z["args"][0])["es"]:
+                e0 = peel_refs(e)
+                hops = 0
+                while e0.get("k") == "Path" and e0.get("local") in inits_ and hops < 4:
+                    e0 = peel_refs(inits_[e0["local"]])
+                    hops += 1
+                rs_.append(r.e(e0))
+            if len(es) == 2 and (es[0] == es[1] or rs_[0] == rs_[1]):
+                res.ok()        # one extent, used for both axes
+            elif len(es) == 2 and all("len()" in x or "nrows" in x or "ncols" in x for x in rs_):
                 res.violate("%s : matrix-not-square" % key, "the confusion matrix is allocated as (%s): not one row and one column per class" % ", ".join(es), fn_loc(fn, z["ln"]))
+            else:
+                res.undecided("%s : matrix-extents" % key, "the extents (%s) were not recognised (fail closed)" % ", ".join(es), fn_loc(fn, z["ln"]))
     for fn in fns_named(F, "map_prediction_to_idx"):
         c = fn["crate"]
         key = fn_key(fn)
@@ -539,6 +554,103 @@ def rule_roles(ctx):
     return res.finish(3)
 
 
+def rule_symmetric(ctx):
+    """The Matthews coefficient does not change when prediction and truth change places.  A formula over the marginal
+    class counts keeps that symmetry only if row sums and column sums enter the numerator alike: a numerator built from one
+    of the two marginals alone is another quantity whenever the marginals differ."""
+    res = RuleResult("R-C05-symmetric", "the numerator of the MCC uses the row sums and the column sums of the matrix alike (or neither)")
+    F = ctx.facts()
+    fns = fns_named(F, "mcc", adt="ConfusionMatrix")
+    if not fns:
+        res.missing_anchor("ConfusionMatrix::mcc")
+    for fn in fns:
+        c = fn["crate"]
+        r = Render(c)
+        key = fn_key(fn)
+        res.instance(key)
+        inits = {}
+        for y in walk(fn["body"]):
+            if y.get("k") == "LetStmt" and y.get("init") is not None and y["pat"].get("k") == "Bind":
+                inits[y["pat"]["local"]] = y["init"]
+
+        def axis_kind(e):
+            out = set()
+            for z in walk(e):
+                if z.get("k") == "MethodCall" and z["name"] == "sum_axis" and z["args"]:
+                    a = r.e(z["args"][0]).replace(" ", "")
+                    out.add("cols" if a.endswith("Axis(0)") else "rows" if a.endswith("Axis(1)") else "?")
+                if z.get("k") == "MethodCall" and z["name"] in ("row", "column") and any(w.get("k") == "MethodCall" and w["name"] == "sum" for w in [z]):
+                    pass
+            return out
+        marg = {l: axis_kind(e) for l, e in inits.items() if axis_kind(e)}
+        tail = strip(fn["body"])
+        while tail.get("k") == "Block" and tail.get("e") is not None:
+            tail = strip(tail["e"])
+        num = peel_refs(tail)
+        while num.get("k") == "Binary" and num["op"] == "/":
+            num = peel_refs(num["l"])
+        nl = num.get("local") if num.get("k") == "Path" else None
+        exprs = [num]
+        if nl is not None:
+            if nl in inits:
+                exprs.append(inits[nl])
+            exprs += [y["r"] for y in walk(fn["body"]) if y.get("k") in ("AssignOp", "Assign") and peel_refs(y["l"]).get("local") == nl]
+        kinds = set()
+        for e in exprs:
+            kinds |= axis_kind(e)
+            for z in walk(e):
+                if z.get("k") == "Path" and z.get("local") in marg:
+                    kinds |= marg[z["local"]]
+        if nl is None and num.get("k") != "Binary":
+            res.undecided("%s : numerator" % key, "the numerator of the final quotient was not found (fail closed)", fn_loc(fn))
+        elif kinds in (set(), {"rows", "cols"}):
+            res.ok()
+        elif "?" in kinds:
+            res.undecided("%s : marginal-axis" % key, "a marginal sum over an unrecognised axis (fail closed)", fn_loc(fn))
+        else:
+            res.violate("%s : numerator-uses-one-marginal:%s" % (key, sorted(kinds)[0]), "the numerator is built from the %s sums alone: exchanging prediction and truth changes it, which the Matthews coefficient must not (it needs the product of row sums and column sums)" % ("row" if "rows" in kinds else "column"), fn_loc(fn))
+    return res.finish(1)
+
+
+def rule_reset(ctx):
+    """A per-item accumulator that is cleared at the end of each pass of a loop is cleared on *every* way to the next pass:
+    a `continue` between its use and the reset carries one item's sums into the next."""
+    from .layout import with_parents
+    res = RuleResult("R-C05-reset", "in the metric code an accumulator that a loop body resets at its end is reset on every path to the next iteration (no `continue` skips the reset)")
+    F = ctx.facts()
+    n = 0
+    for fn in F.all_fns():
+        d = fn["d"]
+        if d["krate"] != "linfa" or "tests" in d["path"] or fn.get("exp") or "metrics_" not in fn_file(fn):
+            continue
+        c = fn["crate"]
+        r = Render(c)
+        for it, pat, body, node in for_loops(fn["body"]):
+            b = strip(body)
+            if b.get("k") != "Block":
+                continue
+            stmts = list(b.get("stmts") or []) + ([b["e"]] if b.get("e") is not None else [])
+            resets = [(i, strip(s_)) for i, s_ in enumerate(stmts) if strip(s_).get("k") == "MethodCall" and strip(s_)["name"] in ("reset", "clear") and not strip(s_)["args"]]
+            if not resets:
+                continue
+            i_reset, rs = resets[-1]
+            n += 1
+            key = fn_key(fn)
+            res.instance("%s : `%s` at the end of a loop body (line %s)" % (key, r.e(rs)[:30], rs.get("ln")))
+            bad = None
+            for s_ in stmts[:i_reset]:
+                for y, anc in with_parents(s_):
+                    if y.get("k") == "Continue" and not any(a.get("k") == "Loop" or (a.get("k") == "Match" and a.get("src") == "ForLoopDesugar") or a.get("k") == "Closure" for a in anc):
+                        bad = y
+            if bad is not None:
+                res.violate("%s : reset-skipped-by-continue" % key, "a `continue` (line %s) leaves the loop body before `%s`: what was accumulated for this item is carried into the next one" % (bad.get("ln"), r.e(rs)[:30]), fn_loc(fn, bad.get("ln")))
+            else:
+                res.ok()
+    if n < 1:
+        res.missing_anchor("loops with a trailing reset in the metric code (found %d)" % n)
+    return res.finish(1)
+
+
 FULL_SORTS = {"sort", "sort_by", "sort_unstable", "sort_unstable_by", "sort_by_key", "sort_unstable_by_key", "sort_by_cached_key"}
 PARTIAL_ORDERS = {"select_nth_unstable", "select_nth_unstable_by", "select_nth_unstable_by_key", "partition_point", "partition"}
 
@@ -618,4 +730,4 @@ def rule_twice(ctx):
 def rules(tier):
     from . import c02
     # the class list of a confusion matrix over a dataset is the key set of its label-count cache: shared with C02
-    return [rule_delegate, rule_degree, rule_orient, rule_roles, rule_count, rule_median, rule_twice, c02.rule_counted]
+    return [rule_delegate, rule_degree, rule_orient, rule_roles, rule_count, rule_median, rule_twice, rule_symmetric, rule_reset, c02.rule_counted]
